@@ -1,7 +1,11 @@
 ------------------------------ MODULE SeqSlice ------------------------------
 (* The sequential object behind concurrency/slice.Slice: a plain sequence.   *)
 (* append(items) returns the length afterwards, slen the length, slice the   *)
-(* whole sequence.                                                           *)
+(* whole sequence.  append takes its items BY VALUE, as `s = append(s, items...)` *)
+(* does for an ordinary slice: the memory the caller passed stays the        *)
+(* caller's.  callerwrite records that the caller has just overwritten (and  *)
+(* appended to) every buffer it ever passed to append; it is not an operation *)
+(* on the object and has no effect on it.                                    *)
 EXTENDS Naturals, Sequences
 
 SliceEmpty == << >>
@@ -9,5 +13,6 @@ SliceOk(s, e, res) ==
     CASE e.op = "append" -> res = Len(s) + Len(e.items)
       [] e.op = "slen"   -> res = Len(s)
       [] e.op = "slice"  -> res = s
+      [] e.op = "callerwrite" -> TRUE
 SliceEff(s, e) == IF e.op = "append" THEN s \o e.items ELSE s
 =============================================================================
